@@ -3,6 +3,7 @@ C10 — the slicing optimisation never changes a mask (M7 `Model/Slicer.lean`).
 -/
 import LlgVerif.Proofs.Slicer
 import LlgVerif.Proofs.Contain
+import LlgVerif.Proofs.LexerSlice
 namespace LlgVerif
 open Slice
 
@@ -42,6 +43,20 @@ theorem c10_containment_decided (rs rb : Rx) (ds db : Dfa) (hs : Dfa.check rs ds
     (h : Dfa.containCheck ds db (Dfa.run db 0 u) pairs = true) (w : List B) (hw : Rx.lang rs w) :
     ∃ v, Rx.lang rb (u ++ w ++ v) :=
   Dfa.contain_sound rs rb ds db hs hb u pairs h w hw
+
+/-- **from containment to the slicer's hypothesis, through the byte-level engine M5**: in a reachable
+state of M5 whose lexer state holds no lazy lexeme (`subsume_possible`), if the slice regex is contained
+in the prefixes of what one entry can still match (a checked containment certificate from the entry's
+state), then every non-empty string of the slice regex is accepted byte by byte from this state — so every
+token of a matched slice is one the plain walk allows, which is the hypothesis `Sound` of `slice_sound`.
+(`hskip`: the configuration's skip lexeme carries the skip flag — true of every dumped lexeme table.) -/
+theorem c10_matched_slice_tokens_accepted (C : Lx.Cfg) (hw : C.wf = true)
+    (hskip : ∀ k, C.skipId = some k → (C.lx k).skip = true) (w0 : List B) (st : Lx.St)
+    (hrun : Lx.run C (Lx.init C) w0 = some st) (hnl : Lx.NoLazy C st.ls)
+    (rs : Rx) (ds : Dfa) (hs : Dfa.check rs ds = true) (l q : Nat) (hmem : (l, q) ∈ st.ls)
+    (pairs : List (Nat × Nat)) (hc : Dfa.containCheck ds (C.lx l).dfa q pairs = true)
+    (w : List B) (hne : w ≠ []) (hlang : Rx.lang rs w) : (Lx.run C st w).isSome = true :=
+  Lx.slice_tokens_accepted C hw hskip w0 st hrun hnl rs ds hs l q hmem pairs hc w hne hlang
 
 /-- Non-vacuity: two overlapping child slices under a wildcard top slice; child 0 matched and
 sound, child 1 not matched: the hypotheses hold and token 5 (in no child) is reported, 3 is not. -/
